@@ -13,7 +13,8 @@ def run(ck, ctx):
         "stay as written. Isolation between statements is the per-statement flag reset (T-RESET, shared with C03).")
     # the flags the sequence statement touches (sequence mode, last token ...) must be reset before every statement
     S.t_reset_lexer(ck, ctx, only={"sequence", "last_token", "is_table", "last_par", "lp_open", "columns_def", "after_columns"})
-    S.t_dom(ck, ctx, "process_line", S.is_self_call("set_default_flags_in_lexer"), S.is_self_call("process_statement"),
+    from ..specs.lines import check_reset_before_parse
+    check_reset_before_parse(ck, ctx,
             "Parser.process_line: flag reset dominates process_statement()",
             "the sequence-mode flag must be cleared before every statement, on every path, or options leak into neighbours")
     ck.floor("T-RESET.lexer", 2)
